@@ -133,6 +133,22 @@ func checklist(c *ConfigC) []viol {
 			}
 		}
 	}
+	// every enabled network of a proxy client has an address (README / field comments: `endpoint`, or
+	// `tcpAddress` / `udpAddress`, never both forms)
+	for _, k := range c.Clients {
+		if k.Proto == "direct" {
+			continue
+		}
+		if k.ETCP && !k.EP && !k.TA {
+			add("client-address:tcp", "client %q (%s): TCP enabled without endpoint or tcpAddress", k.Name, k.Proto)
+		}
+		if k.EUDP && !k.EP && !k.UA {
+			add("client-address:udp", "client %q (%s): UDP enabled without endpoint or udpAddress", k.Name, k.Proto)
+		}
+		if k.EP && (k.TA || k.UA) {
+			add("client-address:conflict", "client %q (%s): endpoint together with tcpAddress / udpAddress", k.Name, k.Proto)
+		}
+	}
 	for _, k := range c.Clients {
 		if k.EUDP && k.MTU < docMinMTU {
 			add("mtu:client", "client %q: UDP with mtu %d", k.Name, k.MTU)
